@@ -2,7 +2,7 @@
 (* Bounded-exhaustive check of the reference semantics against itself (two formulations of the       *)
 (* documented rules, token level and character level) and generator of replay cases (direction A).   *)
 EXTENDS Gen, Tables, Json
-CONSTANTS T, NLeaves, MaxUn, WithConst, Shard, NShards, Emit
+CONSTANTS T, NLeaves, MaxUn, WithConst, Shard, NShards, Emit, FullText
 VARIABLE tree
 
 Init == tree \in ShardTrees(T, NLeaves, MaxUn, WithConst, Shard, NShards)
@@ -19,17 +19,16 @@ OneLemma ==
   \A k \in 1..Size(tree) :
     LET tk == RenderOne(T, tree, k) IN WellFormed(T, tk) /\ Parse(T, tk) = tree
 \* character level: lexing any spelling of any rendering gives back the tree
-TextLemma ==
-  \A m \in ParenModes, sp \in Spacings, br \in BOOLEAN :
-    Den(T, Text(T, Render(T, tree, m), sp, br)) = [st |-> "ok", den |-> tree]
+EmitCombos == {<<"min", "tight", FALSE>>, <<"full", "tight", FALSE>>, <<"ucall", "spaced", TRUE>>,
+               <<"leaf", "spaced", TRUE>>, <<"all", "wide", FALSE>>}
+AllCombos == ParenModes \X Spacings \X BOOLEAN
+TextOk(c) == LET d == Den(T, Text(T, Render(T, tree, c[1]), c[2], c[3])) IN d.st = "ok" /\ d.den = tree
+TextLemma == \A c \in (IF FullText THEN AllCombos ELSE EmitCombos) : TextOk(c)
 NormLemma == Norm(T, tree) = Norm(T, tree)
 
 CaseOf(tk, sp, br) ==
   [text |-> Text(T, tk, sp, br), den |-> tree, vars |-> SortNames(TreeVars(tree))]
 EmitCases ==
-  Emit =>
-    /\ \A m \in {"min", "full"} : PrintT(ToJson(CaseOf(Render(T, tree, m), "tight", FALSE)))
-    /\ \A m \in {"ucall", "leaf"} : PrintT(ToJson(CaseOf(Render(T, tree, m), "spaced", TRUE)))
-    /\ PrintT(ToJson(CaseOf(Render(T, tree, "all"), "wide", FALSE)))
+  Emit => \A c \in EmitCombos : PrintT(ToJson(CaseOf(Render(T, tree, c[1]), c[2], c[3])))
 ASSUME Emit => PrintT(ToJson([table |-> T]))
 =============================================================================
